@@ -152,8 +152,11 @@ def one_case(col: Collector, rng, index: int):
                 ax = "multi"
             else:
                 ax = rng.randrange(len(shape))
-                got = f(args[0], axis=ax) if bk == "arrayapi" else f(args[0], dim=DIMS[ax])
-                exp = [npop(v[0], axis=ax) for v in variables(raws)]
+                ax_arg = ax - len(shape) if (bk == "arrayapi" and rng.random() < 0.3) else ax    # NumPy's negative axes are axes too
+                if ax_arg < 0:
+                    col.count("negative_axis_cases")
+                got = f(args[0], axis=ax_arg) if bk == "arrayapi" else f(args[0], dim=DIMS[ax])
+                exp = [npop(v[0], axis=ax_arg) for v in variables(raws)]
         except Exception as e:  # noqa: BLE001
             report(op, f"raises-{type(e).__name__}", f"{e!r:.200}", extra)
             ax = "raised"
@@ -192,6 +195,9 @@ def one_case(col: Collector, rng, index: int):
             if container != "ndarray":
                 idx = sorted(set(idx)) if coords else idx
         dim_arg = ax if (bk == "arrayapi" or rng.random() < 0.5) else DIMS[ax]
+        if isinstance(dim_arg, int) and rng.random() < 0.3:
+            dim_arg = ax - len(shape)     # the same axis, counted from the end
+            col.count("negative_axis_cases")
         extra = {"axis": ax, "indices": idx, "dim": dim_arg}
         try:
             got = backends.take(Wds(a), idx, dim=dim_arg)
@@ -201,27 +207,30 @@ def one_case(col: Collector, rng, index: int):
         else:
             compare("take", got, exp, dtype, extra)
             col.count("take_checked")
-        shp = ("take", container, shape, ax, isinstance(idx, int), isinstance(dim_arg, int))
+        shp = ("take", container, shape, ax, isinstance(idx, int), isinstance(dim_arg, int), isinstance(dim_arg, int) and dim_arg < 0)
 
     elif kind == "stack":
         dtype = rng.choice(["int64", "float64"])
         k = rng.randint(1, 5)
         raws = [gen_array(rng, np, shape, dtype) for _ in range(k)]
         ax = rng.randrange(len(shape) + 1)
-        extra = {"k": k, "axis": ax}
+        ax_arg = ax - (len(shape) + 1) if rng.random() < 0.3 else ax
+        if ax_arg < 0:
+            col.count("negative_axis_cases")
+        extra = {"k": k, "axis": ax_arg}
         try:
             if bk == "arrayapi":
-                got = backends.stack(*raws, axis=ax)
+                got = backends.stack(*raws, axis=ax_arg)
             else:
-                got = backends.stack(*[Wds(r) for r in raws], dim="new", axis=ax)
-            exp = [np.stack(v, axis=ax) for v in variables(raws)]
+                got = backends.stack(*[Wds(r) for r in raws], dim="new", axis=ax_arg)
+            exp = [np.stack(v, axis=ax_arg) for v in variables(raws)]
         except Exception as e:  # noqa: BLE001
             report("stack", f"raises-{type(e).__name__}", f"{e!r:.200}", extra)
         else:
             if compare("stack", got, exp, dtype, extra) and isinstance(got, xr.DataArray) and list(got.dims).index("new") != ax:
                 report("stack", "new-dim-at-wrong-axis", f"dims {got.dims}, axis {ax}", extra)
             col.count("stack_checked")
-        shp = ("stack", container, shape, k, ax)
+        shp = ("stack", container, shape, k, ax_arg)
 
     elif kind == "concat":
         if shape == ():
@@ -235,10 +244,13 @@ def one_case(col: Collector, rng, index: int):
             if container == "ndarray" or not coords:
                 s[ax] = rng.randint(1, 3)
             raws.append(gen_array(rng, np, tuple(s), dtype))
-        extra = {"k": k, "axis": ax}
+        ax_arg = ax - len(shape) if (bk == "arrayapi" and rng.random() < 0.3) else ax
+        if ax_arg < 0:
+            col.count("negative_axis_cases")
+        extra = {"k": k, "axis": ax_arg}
         try:
             if bk == "arrayapi":
-                got = backends.concat(*raws, axis=ax)
+                got = backends.concat(*raws, axis=ax_arg)
             else:
                 got = backends.concat(*[Wds(r) for r in raws], dim=DIMS[ax])
             exp = [np.concatenate(v, axis=ax) for v in variables(raws)]
@@ -247,7 +259,7 @@ def one_case(col: Collector, rng, index: int):
         else:
             compare("concat", got, exp, dtype, extra)
             col.count("concat_checked")
-        shp = ("concat", container, shape, k, ax)
+        shp = ("concat", container, shape, k, ax_arg)
 
     else:  # batchability
         names = sorted(n for n in vars(Backend) if callable(getattr(Backend, n)) and not n.startswith("_"))
